@@ -3,7 +3,8 @@ open Util
 let case oc stream (s : string) =
   let b = bytes_of_string s in
   emit oc (Ob [ "stream", JS stream; "in", JS (hex s);
-                "exp", JS (hexb (Model.escape b)); "exp_fb", JS (hexb (Model.escape_fallback b)) ])
+                "exp", JS (hexb (Model.escape b)); "exp_fb", JS (hexb (Model.escape_fallback b));
+                "exp2", JS (hexb (Model.escape (Model.escape b))) ])
 
 (* non-string values: the filter sees their text form; the Go side builds a value of the given kind
    whose text form is exactly `text` *)
